@@ -79,7 +79,7 @@ TYPE_LEN = {
     MsgC2S.KEY_EVENT: 8,
     MsgC2S.POINTER_EVENT: 6,
     MsgC2S.CLIENT_CUT_TEXT: 8,
-    MsgC2S.QEMU_CLIENT_MESSAGE: 1,
+    MsgC2S.QEMU_CLIENT_MESSAGE: 2,
 }
 
 REVERSE_MAP = {v: n for (n, v) in KEYMAP.items()}
@@ -198,7 +198,7 @@ class RFBServer(Protocol):  # type: ignore[misc]
 
     def _handle_qemuExtendedKeyEvent(self) -> None:
         down_flag, keysym, keycode = unpack_from("!HII", self.buffer)
-        del self.buffer[:12]
+        del self.buffer[:10]
         self.handle_keyEventExtended(keysym, down_flag, keycode)
         self._handler = self._handle_protocol, 1
 
